@@ -1,6 +1,6 @@
 --------------------------- MODULE Trace_OpcPackage ---------------------------
 (* Validates open/save/open/save traces observed from the real library against OpcPackage.
-   One record per (package, form):  [id, form, ph0, pk1, ph2, pk3, ph4, bytesSame, strict]
+   One record per (package, form):  [id, form, api, ph0, pk1, ph2, pk3, ph4, bytesSame, slidesExp, slidesSeen, slidesReopen, slidesSTS]
    strict = TRUE for C01 inputs (all internal relationships resolve): every SaveClause is required.
    For irregular inputs (C16) the same clauses are required of what is still reachable — OpenOf
    already drops dangling relationships, so no relaxation is needed.                            *)
@@ -11,9 +11,12 @@ TraceSegs == R.segs
 T == R.traces
 
 Clauses == <<"OpenAsSpec", "ExactlyReachableParts", "SameContentType", "SamePayload", "SameRelationships",
-             "NoStrayRelItems", "ContentTypesPresent", "ReopenSame", "SecondSaveSame", "RefusalIsClean">>
+             "NoStrayRelItems", "ContentTypesPresent", "ReopenSame", "SecondSaveSame", "RefusalIsClean",
+             "SlidesInOrder", "SlidesAfterSaveTouchSave">>
 Holds(c, t) ==
-  CASE c = "OpenAsSpec"      -> SamePkg(t.pk1, OpenOf(t.ph0, t.form))
+  CASE c = "OpenAsSpec"      -> SamePkg(t.pk1, IF t.api THEN ApiOutcome(t.ph0, t.form) ELSE OpenOf(t.ph0, t.form))
+    [] c = "SlidesInOrder"   -> (t.api /\ t.pk1.ok) => (t.slidesSeen = t.slidesExp /\ t.slidesReopen = t.slidesExp)
+    [] c = "SlidesAfterSaveTouchSave" -> (t.api /\ t.pk1.ok) => t.slidesSTS = t.slidesExp
     [] c = "ReopenSame"      -> t.pk1.ok => SamePkg(t.pk3, t.pk1)
     [] c = "SecondSaveSame"  -> t.pk1.ok => (SamePhys(t.ph4, t.ph2) /\ t.bytesSame)
     [] c = "RefusalIsClean"  -> ~t.pk1.ok => t.pk1.err \in {"PackageNotFoundError", "BadZipFile", "KeyError", "ValueError"}
